@@ -515,6 +515,10 @@ class ImagePlaceholder:
                     if cell_formatting is not None:
                         line += cell_formatting(col, row)
                     line += b" "
+                # Reset formatting (the row formatting must not bleed out of
+                # the placeholder).
+                if not no_escape:
+                    line += b"\033[0m"
                 result.append(line)
                 continue
             # Insert fg and underline colors encoding IDs.
